@@ -244,7 +244,9 @@ def step (cfg : Cfg) (st : St) : Op → Out (St × String)
   | .btext k line col bytes =>
     if !heldB st k then skipR st
     else match splitChars bytes with
-      | none => pure (st, "unsupported-text")
+      | none =>
+        -- `put_text`: the string is created, `put_string` returns -1 before drawing, the string is released
+        if rejectedText bytes then pure (st, "ret=-1") else pure (st, "unsupported-text")
       | some chars => do
         let cols : Int := chars.length
         let b ← putSpan (st.rbs[k]?.getD {}) line col cols
